@@ -253,7 +253,15 @@ func (x *Exec) call(st *State, c *ast.CallExpr) []Value {
 		// havocked - a sound over-approximation recorded per run. Obligations
 		// that needed more than that fail by name instead of leaving the subset.
 		cal.ct = &FuncContract{Key: cal.key, Mode: x.vc.mode, Loops: map[string]*LoopSpec{}}
-		x.vc.abstractedCalls = append(x.vc.abstractedCalls, x.vc.fn+" -> "+cal.key)
+		if fd := cal.pkg.FindFuncObj(cal.fn); fd != nil && isSmallLeaf(fd) && x.inlineDepth < 3 && cal.pkg == x.pkg {
+			// a small loop-free helper of the same package: executed at the call
+			// site (its strongest postcondition), so that extracting a helper
+			// does not cost the caller its proof
+			cal.ct.Inline = true
+			x.vc.abstractedCalls = append(x.vc.abstractedCalls, x.vc.fn+" -> "+cal.key+" (no contract: inlined)")
+		} else {
+			x.vc.abstractedCalls = append(x.vc.abstractedCalls, x.vc.fn+" -> "+cal.key+" (no contract: write effects havocked)")
+		}
 	}
 	if cal == nil || cal.ct == nil {
 		x.unsup(c.Pos(), "call to %s which has no contract", full)
@@ -442,6 +450,40 @@ func (x *Exec) stdScalarCall(st *State, fn *types.Func, args []Value, c *ast.Cal
 		}
 	}
 	return out
+}
+
+// isSmallLeaf: a short function body without loops, closures, defer, go,
+// select or goto - safe to execute at the call site.
+func isSmallLeaf(fd *ast.FuncDecl) bool {
+	if fd.Body == nil || len(fd.Body.List) > 25 {
+		return false
+	}
+	ok := true
+	ast.Inspect(fd.Body, func(n ast.Node) bool {
+		switch t := n.(type) {
+		case *ast.ForStmt, *ast.RangeStmt, *ast.FuncLit, *ast.DeferStmt, *ast.GoStmt, *ast.SelectStmt, *ast.LabeledStmt:
+			ok = false
+		case *ast.BranchStmt:
+			if t.Tok == token.GOTO {
+				ok = false
+			}
+		case *ast.CallExpr:
+			// calls would bring their own preconditions to the call site;
+			// only builtins and conversions are allowed
+			switch f := ast.Unparen(t.Fun).(type) {
+			case *ast.Ident:
+				switch f.Name {
+				case "len", "cap", "min", "max", "int", "int8", "int16", "int32", "int64", "uint", "uint8", "uint16", "uint32", "uint64", "bool":
+				default:
+					ok = false
+				}
+			default:
+				ok = false
+			}
+		}
+		return ok
+	})
+	return ok
 }
 
 // clearCall models clear(m) (empty map) and clear(s) (zeroed elements).
